@@ -192,6 +192,8 @@ def gen_tables(tier, rng):
         out.append("refwrapops %d %d" % (rng.randint(-1000, 1000), rng.randint(-1000, 1000)))
         out.append("frefops %d" % rng.randint(-1000, 1000))
         out.append("notfnstatic %d" % rng.randint(-3, 3))
+        out.append("voidret %d" % rng.randint(-1000, 1000))
+        out.append("makepairref %d %d" % (rng.randint(-1000, 1000), rng.randint(-1000, 1000)))
     # (catkind / catnest are only replayed as known-finding witnesses)
     return out
 
